@@ -10,6 +10,7 @@ import OciModel.ReqCodec
 import OciModel.ReqCodecLemmas
 import OciModel.B64Url
 import OciModel.B64UrlLemmas
+import OciModel.Generated.ClientCfg
 namespace OciModel.Props.C03
 open OciModel.Ref OciModel.ReqCodec
 
@@ -313,5 +314,15 @@ example : (47 : UInt8) ∉ B64Url.encode exID ∧ B64Url.encode exID ≠ [] ∧
 example : listParams (qget [(qN, strBytes "2")]) { kind := .tagsList } =
     .ok { kind := .tagsList, listN := 2 } := by decide
 example : mPATCH ≠ mPOST ∧ mDELETE ≠ mGET := by decide
+
+/-! ### The client's own HTTP client
+
+The client puts nothing of its own between a caller and the wire: its `http.Client` carries the
+caller's transport and nothing else. In particular it sets no client-wide `Timeout`, which in
+`net/http` bounds the whole exchange *including the reading of the response body* and would end a
+long blob read in the middle although the registry behind it is reading on; deadlines are the
+caller's, through the context. -/
+theorem generated_http_client_is_plain :
+    OciModel.Generated.ClientCfg.httpClientLiterals = [["Transport"]] := by decide
 
 end OciModel.Props.C03
